@@ -42,5 +42,11 @@ def rules(ctx, db):
         forward.rule_io_forwarders(ctx, db, "R7", ("compio_fs::", "compio_runtime::"), 20)
 
 
+    if has_poll(db):
+        ctx.rule("R8", "DIR", "a polling file/pipe op waits for the readiness its system call needs (Readable for read, Writable for write)")
+        n8 = oc.rule_interest(ctx, db, "R8", want_socket=False)
+        ctx.floor("R8", "polling file/pipe ops with a readiness interest", n8, 6)
+
+
 def check(tier):
     return engine.run("C08", tier, rules, NOT_DECIDED, [])
